@@ -538,7 +538,7 @@ theorem invOrd_step (cfg : Cfg) (s : State) (e : Event) (s' : State) (hI : InvOr
     repeat' split at hs
     all_goals (first | (cases hs; done) | skip)
     rename_i _ P hP hg
-    obtain ⟨-, hc, hpend, hb⟩ := hg
+    obtain ⟨-, hc, hpend, hb, -⟩ := hg
     cases hs
     exact invOrd_newBatch hI hP hc hpend (by simpa using hb) rfl rfl rfl rfl rfl
   | add pw b c i size =>
